@@ -10,7 +10,7 @@ EXTENDS Quote, Discr, Json
 CONSTANTS MaxLen        \* strings of length <= MaxLen are emitted as implementation tests
 VARIABLES s, pos, kind
 
-Alphabet == <<SQ, "\"", BS, "n", LF, "{", "}", "%", "a", "é">>
+Alphabet == <<SQ, "\"", BS, "n", LF, "{", "}", "%", "a", "é", "💰">>      \* incl. a code point outside the BMP
 Strs(n) == UNION { [1..k -> Range(Alphabet)] : k \in 0..n }
 Payloads == { <<"x", SQ, "]", " ", "=", " ", "_", "_", "v", "(", ")", " ", "#">>,
               <<"a", SQ, ")", ";", "_", "_", "v", "(", ")", "#">>,
